@@ -177,4 +177,10 @@ def replay_hash(sid, secret, key):
 
 
 def units(tier):
-    return [HashUnit()]
+    from . import c02
+    from minecraft.networking.types import String
+    su = c02.ArrayUnit(String)
+    # the server id that is hashed is the one String.read decoded from the encryption request: it must be exactly the
+    # string the server sent (strict UTF-8, nothing stripped or normalised), else the digest is of a different id
+    su.prop, su.name = 'C17', 'C17.server-id.string-decoding'
+    return [HashUnit(), su]
